@@ -177,7 +177,7 @@ fn aead_incremental_a13_n33() { check_incremental::<8, 13, 33>(5, 16) }
 fn aead_incremental_a3_n15() { check_incremental::<8, 3, 15>(0, 7) }
 // further lengths
 // lengths on both sides of the 16-byte MAC block boundary
-// @harness props=C06,C07 kind=bounded bound=key,nonce_fixed,rounds=8,aad=5,len=16 tier=quick timeout=900 pairs=finalize_raw,pad16,encrypt,decrypt,new,finalize
+// @harness props=C06,C07 kind=bounded bound=key,nonce_fixed,rounds=8,aad=5,len=16 tier=thorough timeout=900 pairs=finalize_raw,pad16,encrypt,decrypt,new,finalize
 #[kani::proof]
 #[kani::stub(core::arch::x86_64::_mm_add_epi32, mm_add_epi32_def)]
 #[kani::stub(Poly1305::block, rec_block)]
@@ -189,7 +189,7 @@ fn aead_oneshot_r2_a5_n16() { check_oneshot::<8, 5, 16>() }
 #[kani::stub(Poly1305::block, rec_block)]
 #[kani::unwind(70)]
 fn aead_incremental_r2_a16_n32() { check_incremental::<8, 16, 32>(3, 16) }
-// @harness props=C06,C07 kind=bounded bound=key,nonce_fixed,rounds=8,aad=1(cut0),len=17(cut1) tier=quick timeout=900 pairs=to_encryption,to_decryption,add_data,add_encrypted,encrypt_mut,decrypt_mut,finalize_raw
+// @harness props=C06,C07 kind=bounded bound=key,nonce_fixed,rounds=8,aad=1(cut0),len=17(cut1) tier=thorough timeout=900 pairs=to_encryption,to_decryption,add_data,add_encrypted,encrypt_mut,decrypt_mut,finalize_raw
 #[kani::proof]
 #[kani::stub(core::arch::x86_64::_mm_add_epi32, mm_add_epi32_def)]
 #[kani::stub(Poly1305::block, rec_block)]
